@@ -182,7 +182,7 @@ def call_closure(I, clos, args, depth):
                     args[i_] = v_
             elif not isinstance(a_, Ref) and pty.startswith("&") and isinstance(a_, int):
                 args[i_] = tmp_ref(a_)
-    return I.run(body, [first] + args, depth + 1)
+    return I.run(body, [first] + args, depth + 1, getattr(clos_v, "gen", None))
 
 
 def iter_next(I, it, depth):
